@@ -3,6 +3,7 @@
 use vstd::prelude::*;
 use bnum::BUint;
 use bnum::BInt;
+use super::nl::*;
 verus! {
 
 #[verifier::external_type_specification]
@@ -223,7 +224,6 @@ pub proof fn lemma_limbs_empty()
 
 
 /// One multiply-accumulate step of a schoolbook row: word (i+j) of the accumulator absorbs xin*yjn + carry-in.
-/// Pure ring identity, split so that every nonlinear query is tiny.
 pub proof fn lemma_mac_step(lz: int, lzp: int, lz0: int, w: int, pij: int, pi: int, pj: int,
                             a: int, c1: int, xin: int, yjn: int, zo: int, c00: int, ly: int)
     requires
@@ -234,13 +234,172 @@ pub proof fn lemma_mac_step(lz: int, lzp: int, lz0: int, w: int, pij: int, pi: i
     ensures
         lz + (w * pij) * c1 == lz0 + pi * (xin * (ly + pj * yjn)),
 {
-    let t1 = pij * a; let t2 = pij * zo; let t3 = pij * c00; let t4 = pij * (xin * yjn); let t5 = (w * pij) * c1;
-    assert(pij * (a + w * c1) == t1 + t5) by (nonlinear_arith) requires t1 == pij * a, t5 == (w * pij) * c1;
-    assert(pij * (xin * yjn + zo + c00) == t4 + t2 + t3) by (nonlinear_arith)
-        requires t2 == pij * zo, t3 == pij * c00, t4 == pij * (xin * yjn);
-    assert(t1 + t5 == t4 + t2 + t3);
-    assert(pi * (xin * (ly + pj * yjn)) == pi * (xin * ly) + t4) by (nonlinear_arith)
-        requires pij == pi * pj, t4 == pij * (xin * yjn);
+    // pij*(a + w*c1) == pij*(xin*yjn + zo + c00)
+    lemma_distrib_l(pij, a, w * c1);
+    lemma_mul_assoc(pij, w, c1); lemma_mul_comm(pij, w);
+    assert(pij * (w * c1) == (w * pij) * c1);
+    lemma_distrib_l(pij, xin * yjn + zo, c00);
+    lemma_distrib_l(pij, xin * yjn, zo);
+    // pi*(xin*(ly + pj*yjn)) == pi*(xin*ly) + pij*(xin*yjn)
+    lemma_distrib_l(xin, ly, pj * yjn);
+    lemma_distrib_l(pi, xin * ly, xin * (pj * yjn));
+    lemma_mul_assoc(xin, pj, yjn); lemma_mul_comm(xin, pj); lemma_mul_assoc(pj, xin, yjn);
+    assert(xin * (pj * yjn) == pj * (xin * yjn));
+    lemma_mul_assoc(pi, pj, xin * yjn);
+    assert(pi * (xin * (pj * yjn)) == pij * (xin * yjn));
+}
+
+/// carry step of a word-wise addition, scaled by the weight pi of the word
+pub proof fn lemma_carry_step(pi: int, w: int, a: int, c1: int, u: int, v: int, c0: int)
+    requires a + w * c1 == u + v + c0
+    ensures pi * a + (w * pi) * c1 == pi * u + pi * v + pi * c0
+{
+    lemma_distrib_l(pi, a, w * c1);
+    lemma_mul_assoc(pi, w, c1); lemma_mul_comm(pi, w);
+    assert(pi * (w * c1) == (w * pi) * c1);
+    lemma_distrib_l(pi, u + v, c0);
+    lemma_distrib_l(pi, u, v);
+}
+
+pub proof fn lemma_pow_w_unfold(k: nat)
+    ensures pow_w(k + 1) == W() * pow_w(k), pow_w(0) == 1, W() == 0x1_0000_0000_0000_0000nat
+{
+    reveal_with_fuel(pow_w, 2);
+}
+
+/// lexicographic comparison from the top word: words above k equal, word k decides
+pub proof fn lemma_limbs_cmp(x: Seq<u64>, n: Seq<u64>, sz: int, k: int)
+    requires 0 <= k < sz, sz <= x.len(), sz <= n.len(),
+        forall|j: int| k < j < sz ==> x[j] == n[j],
+        x[k] < n[k],
+    ensures limbs(x.take(sz)) < limbs(n.take(sz))
+{
+    let xs = x.take(sz); let ns = n.take(sz);
+    lemma_limbs_split(xs, k + 1); lemma_limbs_split(ns, k + 1);
+    assert(xs.skip(k + 1) =~= ns.skip(k + 1));
+    lemma_limbs_take_step(xs, k); lemma_limbs_take_step(ns, k);
+    lemma_limbs_bound(xs.take(k)); lemma_limbs_bound(ns.take(k));
+    let pk = pow_w(k as nat);
+    assert(pk * (xs[k] as nat) + pk <= pk * (ns[k] as nat)) by (nonlinear_arith)
+        requires xs[k] < ns[k], pk >= 0;
+}
+
+pub proof fn lemma_limbs_eq(x: Seq<u64>, n: Seq<u64>, sz: int)
+    requires 0 <= sz <= x.len(), sz <= n.len(), forall|j: int| 0 <= j < sz ==> x[j] == n[j],
+    ensures limbs(x.take(sz)) == limbs(n.take(sz))
+{
+    assert(x.take(sz) =~= n.take(sz));
+}
+
+
+/// One outer round of the CIOS Montgomery multiplication (accumulate x_i*y, cancel the low word with m*n,
+/// hand the two carries to word i+SIZE).
+pub proof fn lemma_cios_round(l0: int, l1: int, l2: int, l3: int, pis: int, pi: int, w: int, carry: int, carryn: int,
+        xn: int, yy: int, mn: int, nn: int, z2top: int, zin: int, cc: int, xi0: int, xi1: int, mm: int, mm1: int)
+    requires
+        l1 + pis * carry == l0 + pi * (xn * yy),
+        l2 + pis * carryn == l1 + pi * (mn * nn),
+        l3 + pis * z2top == l2 + pis * zin,
+        zin + w * cc == z2top + carry + carryn,
+        l0 == xi0 * yy + mm * nn,
+        xi1 == xi0 + pi * xn, mm1 == mm + pi * mn,
+        0 <= mm < pi, 0 <= mn < w, 0 <= xi1 < w * pi, 0 <= yy < nn, w > 0, pi > 0,
+    ensures
+        l3 + (w * pis) * cc == xi1 * yy + mm1 * nn,
+        0 <= mm1 < w * pi,
+        xi1 * yy + mm1 * nn < 2 * ((w * pi) * nn),
+{
+    lemma_carry_step(pis, w, zin, cc, z2top, carry, carryn);
+    lemma_distrib_scaled(xi0, pi, xn, yy);
+    lemma_distrib_scaled(mm, pi, mn, nn);
+    // mm1 < w*pi
+    lemma_mul_le(mn, w - 1, pi);
+    lemma_distrib_l_sub(pi, w, 1);
+    lemma_mul_comm(pi, w);
+    lemma_mul_nonneg(pi, mn);
+    assert(pi * mn <= w * pi - pi);
+    // bound
+    lemma_mul_lt(xi1, w * pi, yy, nn);
+    lemma_mul_lt_pos(mm1, w * pi, nn);
+}
+
+pub proof fn lemma_cios_top(l3: int, ps: int, nn: int, cc: int)
+    requires l3 >= 0, l3 + (ps * ps) * cc < 2 * (ps * nn), 0 < nn < ps, 0 <= cc <= 2
+    ensures cc <= 1
+{
+    if cc == 2 {
+        lemma_mul_lt_pos(nn, ps, ps);
+        assert((ps * ps) * 2 == 2 * (ps * ps));
+    }
+}
+
+pub proof fn lemma_cios_bound(xx: int, yy: int, mm: int, nn: int, ps: int)
+    requires 0 <= xx < ps, 0 <= mm < ps, 0 <= yy < nn
+    ensures xx * yy + mm * nn < 2 * (ps * nn)
+{
+    lemma_mul_lt(xx, ps, yy, nn);
+    lemma_mul_lt_pos(mm, ps, nn);
+}
+
+/// Final step, no overflow: ps*vv == xx*yy + mm*nn < 2*ps*nn  ==>  vv < 2nn and vv*ps ≡ xx*yy (mod nn)
+pub proof fn lemma_cios_final(vv: int, ps: int, xx: int, yy: int, mm: int, nn: int)
+    requires ps * vv == xx * yy + mm * nn, xx * yy + mm * nn < 2 * (ps * nn), ps > 0, nn > 0, xx >= 0, yy >= 0,
+    ensures vv < 2 * nn, (vv * ps) % nn == (xx * yy) % nn
+{
+    lemma_mul_assoc(2, ps, nn); lemma_mul_comm(2, ps); lemma_mul_assoc(ps, 2, nn);
+    assert(2 * (ps * nn) == ps * (2 * nn));
+    lemma_mul_cancel_lt(ps, vv, 2 * nn);
+    vstd::arithmetic::div_mod::lemma_mod_multiples_vanish(mm, xx * yy, nn);
+    lemma_mul_comm(nn, mm); lemma_mul_comm(vv, ps);
+}
+
+/// Final step, overflow: ps*vv + ps*ps == T < 2*ps*nn, v2 + nn == vv + ps  ==>  v2*ps ≡ xx*yy (mod nn)
+pub proof fn lemma_cios_final_ovf(vv: int, v2: int, ps: int, xx: int, yy: int, mm: int, nn: int)
+    requires ps * vv + ps * ps == xx * yy + mm * nn, v2 + nn == vv + ps, nn > 0,
+    ensures (v2 * ps) % nn == (xx * yy) % nn
+{
+    lemma_distrib_l(ps, vv, ps);
+    lemma_distrib_l(ps, v2, nn);
+    assert(ps * v2 + ps * nn == xx * yy + mm * nn);
+    lemma_mul_comm(ps, nn); lemma_mul_comm(ps, v2); lemma_mul_comm(nn, mm);
+    lemma_distrib_l_sub(nn, mm, ps);
+    assert(nn * (mm - ps) + xx * yy == v2 * ps);
+    vstd::arithmetic::div_mod::lemma_mod_multiples_vanish(mm - ps, xx * yy, nn);
+}
+
+/// ps*vv + ps*ps < 2*ps*nn ==> vv + ps < 2nn
+pub proof fn lemma_cios_ovf_bound(vv: int, ps: int, nn: int)
+    requires ps * vv + ps * ps < 2 * (ps * nn), ps > 0
+    ensures vv + ps < 2 * nn
+{
+    lemma_distrib_l(ps, vv, ps);
+    lemma_mul_assoc(2, ps, nn); lemma_mul_comm(2, ps); lemma_mul_assoc(ps, 2, nn);
+    lemma_mul_cancel_lt(ps, vv + ps, 2 * nn);
+}
+
+
+/// value of a word sequence whose words above index sz are zero
+pub proof fn lemma_limbs_top(x: Seq<u64>, sz: int)
+    requires 0 <= sz <= x.len(), forall|k: int| sz + 1 <= k < x.len() ==> x[k] == 0,
+    ensures limbs(x) == limbs(x.take(sz)) + (if x.len() > sz { pow_w(sz as nat) * (x[sz] as nat) } else { 0 })
+{
+    lemma_limbs_split(x, sz);
+    let hi = x.skip(sz);
+    if x.len() > sz {
+        lemma_limbs_split(hi, 1);
+        assert forall|j: int| 0 <= j < hi.skip(1).len() implies hi.skip(1)[j] == 0 by { assert(hi.skip(1)[j] == x[sz + 1 + j]); }
+        lemma_limbs_zero(hi.skip(1));
+        lemma_limbs_take_step(hi, 0);
+        assert(hi.take(0) =~= Seq::<u64>::empty());
+        lemma_limbs_empty(); lemma_pow_w_unfold(0);
+        lemma_mul_nonneg(pow_w(1) as int, 0);
+        assert(hi[0] == x[sz]);
+        assert(limbs(hi) == x[sz] as nat);
+    } else {
+        assert(hi =~= Seq::<u64>::empty());
+        lemma_limbs_empty();
+        lemma_mul_nonneg(pow_w(sz as nat) as int, 0);
+    }
 }
 
 } // verus!
